@@ -280,6 +280,22 @@ def stage_apply_text(expr, sg, pr, alias=0):
         return m("add", *[vtext(v) for v in sg[1]])
     if k == "setRemove":
         return m("remove", *[vtext(v) for v in sg[1]])
+    if k == "flatten":
+        return m("flatten")
+    if k == "defaultIfEmpty":
+        return m("defaultIfEmpty", vtext(sg[1]))
+    if k == "times":
+        return "(%s * %d)" % (expr, sg[1]) if not alias else "(%d * %s)" % (sg[1], expr)
+    if k in ("isList", "isDict", "isSet", "isIterable"):
+        return "%s(%s)" % (k, expr)
+    if k == "in":
+        return "(%s in %s)" % (vtext(sg[1]), expr)
+    if k == "setCmp":
+        return "(%s %s %s)" % (expr, ["<", "<=", ">", ">="][sg[1]], set_text(sg[2]))
+    if k == "index":
+        return "%s[%s]" % (expr, vtext(sg[1]))
+    if k == "indexDefault":
+        return "%s[%s, %s]" % (expr, vtext(sg[1]), vtext(sg[2]))
     raise ValueError(sg)
 
 
@@ -370,6 +386,20 @@ def stage_gal(sg):
         return A("SSetAdd", gvals(sg[1]))
     if k == "setRemove":
         return A("SSetRemove", gvals(sg[1]))
+    if k in ("flatten", "isList", "isDict", "isSet", "isIterable"):
+        return "S" + k[0].upper() + k[1:]
+    if k == "defaultIfEmpty":
+        return A("SDefaultIfEmpty", gvals(sg[1]))
+    if k == "times":
+        return A("STimes", gal.z(sg[1]))
+    if k == "in":
+        return A("SContains", gval(sg[1]))
+    if k == "setCmp":
+        return A("SSetCmp", gal.nat(sg[1]), gvals(sg[2]))
+    if k == "index":
+        return A("SIndex", gval(sg[1]))
+    if k == "indexDefault":
+        return A("SIndexDefault", gval(sg[1]), gval(sg[2]))
     raise ValueError(sg)
 
 
@@ -393,14 +423,15 @@ STAGE_NAMES = {
     "dictGet": ["get"], "containsKey": ["containsKey"], "containsValue": ["containsValue"],
     "union": ["union"], "intersect": ["intersect"], "difference": ["difference", "#operator_-"],
     "symmetricDifference": ["symmetricDifference"], "setAdd": ["add"], "setRemove": ["remove"],
+    "flatten": ["flatten"], "defaultIfEmpty": ["defaultIfEmpty"], "times": ["#operator_*"], "isList": ["isList"],
+    "isDict": ["isDict"], "isSet": ["isSet"], "isIterable": ["isIterable"], "in": ["#operator_in"],
+    "setCmp": ["#operator_<", "#operator_<=", "#operator_>", "#operator_>="], "index": ["#indexer"], "indexDefault": ["#indexer"],
 }
 SOURCE_NAMES = ["#list", "#map", "set", "range", "repeat", "sequence"]
 
 
 # names of the two modules known not to be modelled (anything else that is registered and not modelled is NEW)
-KNOWN_UNMODELLED = {"#indexer", "#operator_*", "#operator_.", "#operator_<", "#operator_<=", "#operator_>", "#operator_>=",
-                    "#operator_in", "defaultIfEmpty", "flatten", "generate", "generateMany", "isDict", "isIterable", "isList",
-                    "isSet", "list", "zipLongest"}
+KNOWN_UNMODELLED = {"#operator_.", "generate", "generateMany", "list", "zipLongest"}
 
 
 def registered_names():
@@ -507,6 +538,10 @@ def err_class(e):
         return "ETooLarge"
     if isinstance(e, StopIteration):
         return "EStop"
+    if isinstance(e, IndexError):
+        return "EIndex"
+    if isinstance(e, KeyError):
+        return "EKey"
     if isinstance(e, ValueError):
         return "EValue"
     if isinstance(e, TypeError):
@@ -682,7 +717,7 @@ def gen_pos(rng, n):
 STREAM_KINDS = ("seq", "iter", "ord")
 
 
-def gen_stage(rng, kind, shape, n, allow_terminal=True, streaming_only=False):
+def gen_stage(rng, kind, shape, n, allow_terminal=True, streaming_only=False, certain=True):
     """-> (stage, new kind, new shape, new length estimate) for a receiver that is a sequence/iterator"""
     ops = ["where", "select", "skip", "take", "takeWhile", "skipWhile", "append", "distinct", "enumerate",
            "zip", "insert", "insertMany", "delete", "replace", "replaceMany", "slice", "memorize", "selectMany",
@@ -691,14 +726,14 @@ def gen_stage(rng, kind, shape, n, allow_terminal=True, streaming_only=False):
         ops += ["join", "plus"]
     if not streaming_only:
         ops += ["reverse", "orderBy", "groupBy", "join", "splitAt", "splitWhere", "sliceWhere", "toList", "plus",
-                "orderBy", "groupBy", "toSet"]
+                "orderBy", "groupBy", "toSet", "flatten", "defaultIfEmpty", "times"]
         ops += ["thenBy"]
         if kind == "ord":
             ops += ["thenBy"] * 6
         if allow_terminal:
             ops += ["aggregate", "sum", "min", "max", "first", "last", "single", "any", "all", "indexOf",
                     "lastIndexOf", "indexWhere", "lastIndexWhere", "len", "count", "contains", "toDict",
-                    "dictFromItems"]
+                    "dictFromItems", "in", "index", "isKind"]
     k = rng.choice(ops)
     it = "iter"
     if k == "where":
@@ -745,7 +780,10 @@ def gen_stage(rng, kind, shape, n, allow_terminal=True, streaming_only=False):
         f = rng.choice(["fst", "snd", "pair2"])
         return ("accumulate", (f,), NOSEED), it, (shape if f != "pair2" else "other"), n
     if k == "insert":
-        return ("insert", gen_pos(rng, n), gen_value(rng, shape)), ("seq" if kind == "seq" else it), shape, n + 1
+        pos = gen_pos(rng, n)
+        if not certain:
+            pos = abs(pos)       # the two overloads differ for negative positions (F18): only on receivers of known kind
+        return ("insert", pos, gen_value(rng, shape)), ("seq" if kind == "seq" else it), shape, n + 1
     if k == "insertMany":
         return ("insertMany", gen_pos(rng, n), tuple(gen_values(rng, shape, rng.randrange(0, 3)))), it, shape, n + 2
     if k == "delete":
@@ -776,6 +814,24 @@ def gen_stage(rng, kind, shape, n, allow_terminal=True, streaming_only=False):
         return ("splitAt", gen_pos(rng, n)), "seq", "other", 2
     if k in ("splitWhere", "sliceWhere"):
         return (k, gen_lam(rng, shape, "pred")), it, "other", n
+    if k == "flatten":
+        return ("flatten",), it, ("int" if shape in ("int", "pairint") else shape if shape == "intnull" else "other"), 2 * n
+    if k == "defaultIfEmpty":
+        return ("defaultIfEmpty", tuple(gen_values(rng, shape, rng.randrange(0, 3)))), kind, shape, n + 1
+    if k in ("times", "index", "isKind") and not certain:
+        return ("toList",), "seq", shape, n
+    if k == "times":
+        if kind != "seq" and rng.random() < 0.7:
+            return ("toList",), "seq", shape, n
+        return ("times", rng.choice([-1, 0, 1, 2, 3])), "seq", shape, 2 * n
+    if k == "in":
+        return ("in", gen_value(rng, shape)), "scalar", "other", 0
+    if k == "index":
+        if kind != "seq" and rng.random() < 0.7:
+            return ("toList",), "seq", shape, n
+        return ("index", rng.randrange(-n - 2, n + 3)), "scalar", "other", 0
+    if k == "isKind":
+        return (rng.choice(["isList", "isDict", "isSet", "isIterable"]),), "scalar", "other", 0
     if k == "toList":
         return ("toList",), "seq", shape, n
     if k == "toSet":
@@ -883,10 +939,19 @@ def gen_pipeline(rng, maxlen=4):
                 stages.append(("insert", 0, 1))      # not applicable to sets
                 kind = "scalar"
                 continue
-            t = rng.choice(["len", "count", "contains", "sum", "min", "max", "any", "all"])
+            t = rng.choice(["len", "count", "contains", "sum", "min", "max", "any", "all", "setCmp", "setCmp", "in", "isKind", "defaultIfEmpty"])
             if t in ("sum", "min", "max") and shape != "int":
                 t = "len"
-            if t == "contains":
+            if t == "setCmp":
+                stages.append(("setCmp", rng.randrange(4), tuple(gen_values(rng, shape, rng.randrange(0, 4)))))
+            elif t == "in":
+                stages.append(("in", gen_value(rng, shape)))
+            elif t == "isKind":
+                stages.append((rng.choice(["isList", "isDict", "isSet", "isIterable"]),))
+            elif t == "defaultIfEmpty":
+                stages.append(("defaultIfEmpty", tuple(gen_values(rng, shape, rng.randrange(0, 3)))))
+                stages.append(("len",))
+            elif t == "contains":
                 stages.append(("contains", gen_value(rng, shape)))
             elif t == "sum":
                 stages.append(("sum", NOSEED))
@@ -906,8 +971,14 @@ def gen_pipeline(rng, maxlen=4):
                 stages.append((t,))
                 kind, shape, n = "seq", "other", 4
                 continue
-            t = rng.choice(["len", "dictGet", "containsKey", "containsValue", "where", "count"])
-            if t == "dictGet":
+            t = rng.choice(["len", "dictGet", "containsKey", "containsValue", "where", "count", "index", "indexDefault", "isKind"])
+            if t == "index":
+                stages.append(("index", rng.choice([None] + INTS[:8])))
+            elif t == "indexDefault":
+                stages.append(("indexDefault", rng.choice([None] + INTS[:8]), rng.choice([None, 0, 7])))
+            elif t == "isKind":
+                stages.append((rng.choice(["isList", "isDict", "isSet", "isIterable"]),))
+            elif t == "dictGet":
                 stages.append(("dictGet", rng.choice([None] + INTS[:8]), rng.choice([NOSEED, 0, None])))
             elif t in ("containsKey", "containsValue"):
                 stages.append((t, rng.choice([None] + INTS[:8])))
@@ -922,7 +993,8 @@ def gen_pipeline(rng, maxlen=4):
             stages.append(("take", rng.randrange(0, 9)))
             kind, n = "iter", 8
             continue
-        sg, kind, shape, n = gen_stage(rng, kind, shape, n)
+        certain = not stages or stages[-1][0] in ("toList", "keysList", "valuesList", "itemsList", "splitAt")
+        sg, kind, shape, n = gen_stage(rng, kind, shape, n, certain=certain)
         stages.append(sg)
     return src, stages
 
